@@ -3445,6 +3445,12 @@ NATIVE = {
     're.compile': _re_compile,
     'numpy.searchsorted': _np_searchsorted,
     'scipy.integrate.quad': _quad,
+    # wall-clock text in file headers: a fixed-form stamp whose content no rule depends on
+    'datetime.datetime.now': lambda I, fr, args, kwargs, n: '2000-01-01 00:00:00.000000',
+    'datetime.datetime.today': lambda I, fr, args, kwargs, n: '2000-01-01 00:00:00.000000',
+    'datetime.date.today': lambda I, fr, args, kwargs, n: '2000-01-01',
+    'time.time': lambda I, fr, args, kwargs, n: I.D.sym('wallclock'),
+    'time.strftime': lambda I, fr, args, kwargs, n: '2000-01-01 00:00:00',
 }
 
 GLOBAL_ATTRS = {
